@@ -36,7 +36,7 @@ def static_part(ctx, T=T, stem="Shapes", prefix="shape"):
         ra_rc, ra_out = C.cached_lean_audit(f"Audit/Generated{stem}.lean".split("/", 1)[1])
         flat = (ra_out).replace("\n ", " ").replace("\n", " ")
         axioms = {}
-        for m in re.finditer(r"'PsVerif\.Gen\.((?:shape|indices|loop|box|normcalc|mask|pipe|selection|sel|default|hh|recon|metrics|bases|cls)_\w+)' (?:depends on axioms: \[([^\]]*)\]|does not depend on any axioms)", flat):
+        for m in re.finditer(r"'PsVerif\.Gen\.((?:shape|indices|loop|box|normcalc|mask|pipe|selection|sel|default|hh|recon|metrics|bases|cls|life)_\w+)' (?:depends on axioms: \[([^\]]*)\]|does not depend on any axioms)", flat):
             axioms[m.group(1)] = [a.strip() for a in (m.group(2) or "").split(",") if a.strip()]
         nonstd = {k: [a for a in v if a not in C.ALLOWED_AXIOMS] for k, v in axioms.items()}
         nonstd = {k: v for k, v in nonstd.items() if v}
